@@ -866,6 +866,46 @@ impl Scenario for CrashScenario {
                 } else {
                     out.stat("fault_not_reached", 1);
                 }
+                // second crash: the incarnation that recovers from the first crash (and goes on working) is itself
+                // ended at a seeded I/O event - inside its recovery or inside one of its operations
+                let mut second: Option<(Plan, RunResult, String)> = None;
+                if fired && base.profile.contains("+post") && rr.incs.len() == plan.incarnations.len() && rng.chance(0.3) && n_variants < max_variants {
+                    let pts = io_points(&rr.incs[crash_inc + 1]);
+                    if !pts.is_empty() {
+                        let q = &pts[rng.below(pts.len() as u64) as usize];
+                        let mut plan2 = plan.clone();
+                        let sel2 = match q.op {
+                            Some(op) => Sel::InOp { op, nth: q.nth_in_op },
+                            None => Sel::AtIo(q.n),
+                        };
+                        let act2 = if q.kind == "Store" && q.mmap && q.len >= 2 && rng.chance(0.4) { Act::Torn { n: rng.range(1, q.len.max(2) - 1) } } else { Act::Crash };
+                        plan2.incarnations[crash_inc + 1].faults = vec![Fault { sel: sel2, act: act2 }];
+                        n_variants += 1;
+                        let rr2 = run_plan(&env.bins, &plan2, &RunOpts::default());
+                        out.executions += rr2.incs.len() as u64;
+                        out.digest = crate::rng::fnv_step(out.digest, history_hash(&rr2));
+                        absorb_summary(&mut out, &rr2);
+                        if rr2.incs.get(crash_inc + 1).map(|i| matches!(i.exit, Exit::Code(77))).unwrap_or(false) {
+                            out.stat("reach.second_crash_in_recovering_incarnation", 1);
+                            out.stat(&format!("reach.second_crash_at_{}", q.kind), 1);
+                            if q.op.and_then(|o| index_ops(&plan2).get(&o).map(|x| matches!(x.kind, OpKind::Open { .. }))).unwrap_or(false) {
+                                out.stat("reach.second_crash_inside_recovery", 1);
+                            }
+                            out.keys.push(crate::rng::fnv64(format!("{}:{}:{:?}:second:{}", seed_r, p.n, act, q.n).as_bytes()));
+                        }
+                        second = Some((plan2, rr2, q.kind.clone()));
+                    }
+                }
+                if let Some((plan2, rr2, kind2)) = second.as_ref() {
+                    for f in judge_crash(plan2, rr2, self.mode) {
+                        if self.owns(&f.rule) {
+                            let f = f.fact("crash_kind", serde_json::json!(p.kind)).fact("second_crash_kind", serde_json::json!(kind2)).fact("act", serde_json::json!("double_crash")).fact("backend", serde_json::json!(plan2.incarnations[crash_inc].backend.clone()));
+                            out.findings.push((plan2.clone(), f));
+                        } else if f.rule.starts_with("harness.") {
+                            out.harness_errors.push(f.detail.clone());
+                        }
+                    }
+                }
                 for f in judge_crash(&plan, &rr, self.mode) {
                     if self.owns(&f.rule) {
                         let f = f.fact("crash_kind", serde_json::json!(p.kind)).fact("act", serde_json::json!(match &act {
